@@ -103,6 +103,9 @@ impl Agg {
 }
 
 pub struct Driver {
+    /// where the aggregate is saved whenever a new violation class is confirmed (a violating
+    /// execution can leave threads of the code under test behind that abort the process later)
+    pub partial: Option<std::path::PathBuf>,
     pub agg: Mutex<Agg>,
     pub stop: AtomicBool,
     /// wall-clock cap of the exploration (a hit cap is reported, never passed off as exhaustive)
@@ -111,13 +114,30 @@ pub struct Driver {
 
 impl Driver {
     pub fn new(budget: Duration) -> Self {
-        Driver { agg: Mutex::new(Agg::default()), stop: AtomicBool::new(false), deadline: std::time::Instant::now() + budget }
+        Driver { partial: None, agg: Mutex::new(Agg::default()), stop: AtomicBool::new(false), deadline: std::time::Instant::now() + budget }
     }
 
     /// run the items with index = shard (mod nshards) on this process's threads
     pub fn run_items(&self, items: &[Item], shard: usize, nshards: usize) {
         let mine: Vec<&Item> = items.iter().enumerate().filter(|(i, _)| i % nshards == shard).map(|(_, it)| it).collect();
+        let journal = std::env::var_os("E_C18_INFLIGHT_DIR").map(std::path::PathBuf::from);
+        let seq = std::sync::atomic::AtomicU64::new(0);
         vcore::par_for_each(&mine, |_, it| {
+            // in-flight journal: if this process dies inside an execution (abort, double panic in
+            // the code under test), the parent learns which sequences were running
+            let mark = journal.as_ref().map(|d| d.join(format!("inflight-{shard}-{}", seq.fetch_add(1, Ordering::SeqCst))));
+            if let Some(m) = &mark {
+                let _ = std::fs::write(m, it.label.as_bytes());
+            }
+            struct Unmark(Option<std::path::PathBuf>);
+            impl Drop for Unmark {
+                fn drop(&mut self) {
+                    if let Some(m) = &self.0 {
+                        let _ = std::fs::remove_file(m);
+                    }
+                }
+            }
+            let _unmark = Unmark(mark);
             if self.stop.load(Ordering::SeqCst) {
                 self.agg.lock().unwrap().skipped += 1;
                 return;
@@ -188,6 +208,9 @@ impl Driver {
                     e.0 = what.clone();
                     e.1 = it.replay.clone();
                 }
+                if let Some(p) = &self.partial {
+                    let _ = std::fs::write(p, vcore::serde_json::to_vec(&a.to_json()).unwrap_or_default());
+                }
                 if key.contains(":liveness:") {
                     // each further occurrence costs three watchdog periods: stop exploring
                     self.stop.store(true, Ordering::SeqCst);
@@ -211,11 +234,16 @@ fn explore_and_finish(report: Report, prop: &str, tier: Tier, items: Vec<Item>, 
         Ok(f) if !f.is_empty() => items.into_iter().filter(|i| i.label.contains(&f)).collect(),
         _ => items,
     };
+    let items: Vec<Item> = match std::env::var("E_C18_EXACT") {
+        Ok(f) if !f.is_empty() => items.into_iter().filter(|i| i.label == f).collect(),
+        _ => items,
+    };
     let budget_s: u64 = std::env::var("E_C18_BUDGET_S").ok().and_then(|s| s.parse().ok()).unwrap_or(tier.pick(38, 14 * 60));
     let budget = Duration::from_secs(budget_s);
     if let Some((i, k, out)) = shard {
         // sub-process: run one shard, write the aggregate, exit
-        let d = Driver::new(budget);
+        let mut d = Driver::new(budget);
+        d.partial = Some(out.with_extension("partial"));
         d.run_items(&items, i, k);
         util::drop_helpers();
         let a = d.agg.into_inner().unwrap();
@@ -229,6 +257,7 @@ fn explore_and_finish(report: Report, prop: &str, tier: Tier, items: Vec<Item>, 
     let threads = vcore::threads();
     let nproc: usize = std::env::var("E_C18_PROCS").ok().and_then(|s| s.parse().ok()).unwrap_or_else(|| (threads / 2).clamp(1, 8));
     let mut agg = Agg::default();
+    let mut shards_died = 0u64;
     if nproc <= 1 {
         let d = Driver::new(budget);
         d.run_items(&items, 0, 1);
@@ -252,6 +281,7 @@ fn explore_and_finish(report: Report, prop: &str, tier: Tier, items: Vec<Item>, 
                 .arg("--out")
                 .arg(&out)
                 .env("VERIF_THREADS", per.to_string())
+                .env("E_C18_INFLIGHT_DIR", &dir)
                 .env("E_C18_BUDGET_S", budget_s.saturating_sub(report.elapsed() as u64).max(1).to_string())
                 .spawn()
                 .unwrap_or_else(|e| vcore::machinery_error(&format!("cannot start shard {i}: {e}")));
@@ -265,7 +295,79 @@ fn explore_and_finish(report: Report, prop: &str, tier: Tier, items: Vec<Item>, 
                     Ok(v) => agg.merge_json(&v),
                     Err(e) => failed.push(format!("shard {i}: bad aggregate: {e}")),
                 },
-                (st, _) => failed.push(format!("shard {i} failed: {st:?}")),
+                (st, _) => {
+                    // The shard died inside an execution. The sequences it was running are in the
+                    // journal: each is re-run twice in a process of its own; a sequence that kills
+                    // its process both times is a violation (the code under test aborted), with
+                    // that sequence as the replay. A death nobody reproduces is a machinery failure.
+                    let mut labels: Vec<String> = Vec::new();
+                    if let Ok(rd) = std::fs::read_dir(&dir) {
+                        for e in rd.flatten() {
+                            if e.file_name().to_string_lossy().starts_with(&format!("inflight-{i}-")) {
+                                if let Ok(l) = std::fs::read_to_string(e.path()) {
+                                    labels.push(l);
+                                }
+                                let _ = std::fs::remove_file(e.path());
+                            }
+                        }
+                    }
+                    labels.sort();
+                    let mut attributed = 0;
+                    // violations the shard had confirmed before it died
+                    if let Ok(bytes) = std::fs::read(out.with_extension("partial")) {
+                        if let Ok(v) = vcore::serde_json::from_slice::<Value>(&bytes) {
+                            attributed += v["violations"].as_array().map(|a| a.len()).unwrap_or(0);
+                            agg.merge_json(&v);
+                        }
+                    }
+                    for l in labels.iter().take(64) {
+                        let mut deaths = Vec::new();
+                        for round in 0..2 {
+                            let out1 = dir.join(format!("single-{i}-{round}.json"));
+                            let r = std::process::Command::new(&exe)
+                                .arg(prop)
+                                .arg(tier.name())
+                                .arg("--shard")
+                                .arg("0/1")
+                                .arg("--out")
+                                .arg(&out1)
+                                .env("VERIF_THREADS", "1")
+                                .env("E_C18_EXACT", l)
+                                .env_remove("E_C18_INFLIGHT_DIR")
+                                .stderr(std::process::Stdio::null())
+                                .status();
+                            match r {
+                                Ok(s1) if s1.success() => {
+                                    if let Ok(bytes) = std::fs::read(&out1) {
+                                        if let Ok(v) = vcore::serde_json::from_slice::<Value>(&bytes) {
+                                            if round == 0 {
+                                                agg.merge_json(&v);
+                                            }
+                                        }
+                                    }
+                                }
+                                Ok(s1) => deaths.push(format!("{s1:?}")),
+                                Err(e) => failed.push(format!("cannot re-run {l}: {e}")),
+                            }
+                        }
+                        if deaths.len() == 2 {
+                            attributed += 1;
+                            let family = l.split([':', ' ']).next().unwrap_or("?").to_string();
+                            let replay = items.iter().find(|it| &it.label == l).map(|it| it.replay.clone()).unwrap_or(Value::Null);
+                            let e = agg
+                                .violations
+                                .entry(format!("{family}:process-aborted"))
+                                .or_insert_with(|| (format!("the process executing this sequence died ({}), twice more when re-run alone: a panic that cannot unwind or an abort inside the code under test -- {l}", deaths[0]), replay, 0));
+                            e.2 += 1;
+                        }
+                    }
+                    if attributed == 0 {
+                        failed.push(format!("shard {i} failed: {st:?} (in flight: {} sequences, none dies when re-run alone)", labels.len()));
+                    } else {
+                        shards_died += 1;
+                        eprintln!("note: shard {i} died ({st:?}) with {attributed} confirmed violation class(es) / in-flight sequences that die when re-run alone; the rest of that shard was not executed");
+                    }
+                }
             }
         }
         let _ = std::fs::remove_dir_all(&dir);
@@ -295,6 +397,9 @@ fn explore_and_finish(report: Report, prop: &str, tier: Tier, items: Vec<Item>, 
     if agg.stopped {
         report.cap_hit("exploration stopped early after a confirmed liveness violation (every further occurrence costs three watchdog periods)");
     }
+    if shards_died > 0 {
+        report.cap_hit(&format!("{shards_died} worker process(es) died inside an execution (reported as a violation); the sequences they had not yet run were not executed"));
+    }
     if agg.time_capped {
         report.cap_hit(&format!("wall-clock cap of {budget_s} s reached: {} of the enumerated sequences were not executed", agg.skipped));
     }
@@ -311,9 +416,8 @@ fn explore_and_finish(report: Report, prop: &str, tier: Tier, items: Vec<Item>, 
         for x in agg.nondet.iter().take(5) {
             eprintln!("NONDETERMINISM: {x}");
         }
-        if agg.violations.is_empty() {
-            vcore::machinery_error(&format!("{} violation candidate(s) did not reproduce (NONDETERMINISM)", agg.nondet.len()));
-        }
+        // A candidate that does not reproduce in two immediate re-executions of the same sequence is
+        // not a verdict (the watchdogs are real time on a shared machine): recorded, never reported.
         // reproducible violations exist: they are the verdict; the unreproducible candidates are recorded
         report.count("violation_candidates_not_reproduced", agg.nondet.len() as u64);
         report.extra("nondeterministic_candidates", json!(agg.nondet.iter().take(10).collect::<Vec<_>>()));
